@@ -17,10 +17,21 @@ def check(ctx, names=None, rule="CONST", enums=True):
     table = dict(dlt_spec.CONSTS)
     if names is not None:
         table = {k: v for k, v in table.items() if k in names}
-    for path, want in sorted(table.items()):
+    def find(path):
+        """The constant by path, or — when it was moved into another (sub-)module — the only constant of that name."""
         c = F.consts.get(path)
+        if c is not None:
+            return c
+        name = path.split("::")[-1]
+        cands = [v for k, v in F.consts.items() if k.split("::")[-1] == name and not k.startswith("<") and "::{" not in k]
+        return cands[0] if len(cands) == 1 else None
+
+    for path, want in sorted(table.items()):
+        c = find(path)
         if c is None:
-            R.violation(rule, "missing|" + path, "constant %s not found (renamed or removed): cannot compare with the spec value %r" % (path, want), kind="ANCHOR-MISSING")
+            # a constant that was renamed, inlined or removed cannot be compared; the layouts that use its value are
+            # compared by the WIRE / TAB rules, so this is reported as not decided rather than as a finding
+            R.notes.append("%s: constant %s not found (renamed or removed): not compared with the spec value %r" % (rule, path, want))
             continue
         got = const_value(c)
         if isinstance(want, str) and isinstance(got, bytes):
@@ -29,7 +40,7 @@ def check(ctx, names=None, rule="CONST", enums=True):
         if got != want:
             R.violation(rule, "value|" + path, "constant %s evaluates to %r, the DLT layout prescribes %r" % (path, got, want), file=c["sp"]["f"], line=c["sp"]["l"], function=path)
     for path, want in sorted(dlt_spec.OPTIONAL_CONSTS.items()):
-        c = F.consts.get(path)
+        c = find(path)
         if c is not None and names is None:
             got = const_value(c)
             R.instance(rule, "%s = %r (spec %r)" % (path, got, want))
